@@ -89,6 +89,9 @@ structure Facts where
   /-- `case ENDOFCOMMAND:` of `parseTaxa` / `parseData` does nothing (an empty command `;;`); without it the `;` starts
   an "unsupported command" that swallows the next command - e.g. `DIMENSIONS` - up to its `;` -/
   emptyCommandIsNoOp : Bool := false
+  /-- a second `BEGIN DATA` / `BEGIN CHARACTERS` block is an error; without it the second block silently replaces the
+  rows and the declared counts of the first -/
+  rejectsSecondDataBlock : Bool := false
 
 /-- `consumeComment` after a `[`: scan up to `]`.  `err` = an EOF was met on the way (the Go code
 records "unmatched bracket" and, unless repaired, keeps looping). -/
@@ -345,9 +348,11 @@ def topStep (f : Facts) (k : Seq → Top → R Top) (top : Top) (t : Tok) (r : S
       | .taxa => do
         let (nt, ls, r') ← parseTaxa f (r3.length + 3) r3 (-1) []
         k r' { top with taxantax := nt, taxlabels := some ls }
-      | .data => do
-        let (d, r') ← parseData f (r3.length + 3) r3 {}
-        k r' { top with data := some d }
+      | .data =>
+        if f.rejectsSecondDataBlock && top.data.isSome then .error .error
+        else do
+          let (d, r') ← parseData f (r3.length + 3) r3 {}
+          k r' { top with data := some d }
       | _ => do
         let r' ← skipBlock (r3.length + 3) r3
         k r' top
